@@ -99,7 +99,7 @@ CORPUS = [
 ]
 
 if __name__ == "__main__":
-    run_builder_check(PID, gen_cases, oracle, fields=["pos", "spos", "dm", "sdm"], truncate_at_leak=True, corpus=CORPUS,
+    run_builder_check(PID, gen_cases, oracle, fields=["pos", "spos", "dm", "sdm"], truncate_at_leak=True, after_leak_signature="after-C05-leak", corpus=CORPUS,
                       oracle_only_cases=tracer_cases,
                       rule="motion-heavy weighted grammar: moves/rapids (any subset of axes, dyadic coordinates k/2^j), "
                            "absolute-bypass moves, G92, homing, probing, distance-mode switches, nested "
